@@ -28,7 +28,7 @@ for prop in args:
         notes = open(f'{src}/notes{i}.md').read() if os.path.exists(f'{src}/notes{i}.md') else ''
         open(dst + '/notes.md', 'w').write(notes)
         demo = open(dst + '/demo_test.go').read()
-        m = re.search(r'func (TestSeed\w*)\(', demo)
+        ms = [x for x in re.findall(r'func (TestSeed\w*)\(', demo) if not x.endswith('Child')] or re.findall(r'func (TestSeed\w*)\(', demo); m = ms and type('M', (), {'group': lambda self, i: ms[0]})()
         meta = {'property': prop, 'title': titles[prop],
                 'origin': 'independent sub-agent given only the property text (and a list of changes already tried) and a scratch worktree',
                 'test': m.group(1) if m else f'TestSeed{i}', 'go_test_flags': '', 'demo_runs': 1}
